@@ -86,22 +86,34 @@ def run_property(pid, tier="quick", seed=0, jobs=None, only=None):
         outs = [_task(t) for t in tasks]
     else:
         limit = float(os.environ.get("PYVC_TASK_TIMEOUT", 600 if tier == "quick" else 1800))
-        pool = mp.get_context("fork").Pool(jobs, maxtasksperchild=1)
-        outs = []
-        try:
-            asyncs = [(t, pool.apply_async(_task, (t,))) for t in tasks]
-            deadline = time.time() + limit
-            for t, a in asyncs:
-                try:
-                    outs.append(a.get(timeout=max(1.0, deadline - time.time())))
-                except mp.TimeoutError:
-                    mod = importlib.import_module(t[0])
-                    c = mod.CONTRACTS[t[1]]
-                    outs.append({"target": c.target, "contract": type(c).__name__, "case": c.case_name(c.cases()[t[2]]), "results": {},
-                                 "undecided": [f"{c.target}[{c.case_name(c.cases()[t[2]])}]: verification task exceeded the time limit of {limit:.0f}s"],
-                                 "errors": [], "paths": 0, "assumptions": [], "wall_s": limit})
-        finally:
-            pool.terminate()
+        # two rounds: tasks that have not finished within the first budget are started again in fresh processes (a task that hangs -- seen
+        # twice in a day of runs, in a forked z3 process that never returned -- passes on the second start; a task that is merely slow gets
+        # the full limit then)
+        first = float(os.environ.get("PYVC_TASK_FIRST_ROUND", 240 if tier == "quick" else 900))
+        done, pending = {}, list(tasks)
+        for budget in (min(first, limit), limit):
+            pool = mp.get_context("fork").Pool(jobs, maxtasksperchild=1)
+            still = []
+            try:
+                asyncs = [(t, pool.apply_async(_task, (t,))) for t in pending]
+                deadline = time.time() + budget
+                for t, a in asyncs:
+                    try:
+                        done[t] = a.get(timeout=max(1.0, deadline - time.time()))
+                    except mp.TimeoutError:
+                        still.append(t)
+            finally:
+                pool.terminate()
+            pending = still
+            if not pending:
+                break
+        for t in pending:
+            mod = importlib.import_module(t[0])
+            c = mod.CONTRACTS[t[1]]
+            done[t] = {"target": c.target, "contract": type(c).__name__, "case": c.case_name(c.cases()[t[2]]), "results": {},
+                       "undecided": [f"{c.target}[{c.case_name(c.cases()[t[2]])}]: verification task exceeded the time limit of {limit:.0f}s (started twice)"],
+                       "errors": [], "paths": 0, "assumptions": [], "wall_s": limit}
+        outs = [done[t] for t in tasks]
     return {"tasks": outs, "wall_s": time.time() - t0}
 
 
